@@ -62,6 +62,12 @@ type c14Case struct {
 	// index
 	Name     string `json:"name,omitempty"`
 	Writable bool   `json:"writable,omitempty"`
+	// putretry
+	Kind       string `json:"kind,omitempty"` // index | chunk
+	Upstream   string `json:"server,omitempty"`
+	BodyLens   []int  `json:"attempt_body_lengths,omitempty"`
+	PayloadLen int    `json:"payload_length,omitempty"`
+	Stored     string `json:"server_object,omitempty"`
 	// framing
 	StreamHex string `json:"stream_hex,omitempty"`
 	// results
@@ -321,6 +327,10 @@ type c14ScriptSrv struct {
 	bodies map[string][]byte
 	n      int
 	wg     sync.WaitGroup
+	// what the requests carried, and the object a body-keeping server holds (PUT answered 2xx)
+	reqBodies [][]byte
+	stored    []byte
+	hasObj    bool
 }
 
 func c14NewScriptSrv() (*c14ScriptSrv, error) {
@@ -346,6 +356,7 @@ func (s *c14ScriptSrv) set(script []string, bodies map[string][]byte) {
 	s.wg.Wait()
 	s.mu.Lock()
 	s.script, s.bodies, s.n = script, bodies, 0
+	s.reqBodies, s.stored, s.hasObj = nil, nil, false
 	s.mu.Unlock()
 }
 
@@ -364,7 +375,7 @@ func (s *c14ScriptSrv) handle(conn net.Conn) {
 	if err != nil {
 		return
 	}
-	io.Copy(io.Discard, req.Body)
+	reqBody, _ := io.ReadAll(req.Body)
 	s.mu.Lock()
 	k := s.n
 	s.n++
@@ -373,6 +384,10 @@ func (s *c14ScriptSrv) handle(conn net.Conn) {
 		tok = s.script[k]
 	}
 	body := s.bodies[tok]
+	s.reqBodies = append(s.reqBodies, reqBody)
+	if req.Method == "PUT" && (tok == "200" || tok == "201") {
+		s.stored, s.hasObj = reqBody, true
+	}
 	s.mu.Unlock()
 	switch tok {
 	case "reset":
@@ -1264,12 +1279,17 @@ func runC14(a vh.Args, o *vh.Oracle, r *vh.Result) error {
 	if err := c14IndexPart(a, o, r, rng.Fork()); err != nil {
 		return err
 	}
+	if err := c14PutRetries(a, o, r, rng.Fork()); err != nil {
+		return err
+	}
 	return c14Framing(a, o, r, rng.Fork())
 }
 
 func c14Replay(a vh.Args, o *vh.Oracle, r *vh.Result, c *c14Case) error {
 	rng := vh.NewRand(a.Seed)
 	switch c.Part {
+	case "putretry":
+		return c14PutRetries(a, o, r, rng)
 	case "script":
 		srv, err := c14NewScriptSrv()
 		if err != nil {
